@@ -1,9 +1,427 @@
-import LeptosModel.Model.Dom
-import LeptosModel.Model.View
+import LeptosModel.Proofs.ViewFinal
+/-!
+# C03 — updating a view in place gives the same DOM as rendering it fresh
+
+Model: `Model/Dom.lean` (native DOM), `Model/View.lean` (views, retained states, `build`, `rebuild`,
+`mount`, `unmount`, `insert_before_this`, `render`).  Proof: `Proofs/View*.lean`; the core is
+`rebuild_spec` (`Proofs/ViewRebuild.lean`): by structural induction on the new view, mutually with
+tuples and the `Vec` zip, `rebuild b` turns a mounted representation of `a` into a mounted
+representation of `b` **in the same place**, allocates only fresh ids for new nodes and changes no
+node outside the state (separation-style invariant `Inv` / frame `Res`).
+
+## What is proved (all view trees of the fragment, unbounded depth and width, any siblings)
+
+* **Structural combinators: complete.**  text, `()`, elements (children, void elements), tuples,
+  `Option`, `Either` / `EitherOfN` (incl. branch switches), `Vec` (grow, shrink, fill from empty, clear),
+  **and `AnyView`** (same type: rebuild with the erased flag; other type: replaced in position).
+  = stages 1 and 3 of DESIGN §7 C03.
+* **Attributes: stage 1 only** — `Attr<K, String>` items with pairwise distinct keys
+  (`StaticAttrs`, decidable; on types: `Ty.inStage1`).  The proof is parametric in the attribute
+  fragment (`rebuild_spec` takes any predicate `Good` with `AttrsFresh` / `AttrsRebuild`), so a
+  later stage only has to supply those two lemmas.
+
+## What is OPEN / refuted
+
+* Stage 2 (`Option<String>` / `bool` values, `class`, `style` items) is **not proved**, and the
+  statement over *all* attribute shapes is **false of the code**: `C03_rebuild_eq_fresh_stmt` is the
+  full statement (executable form), `C03_rebuild_eq_fresh_stmt_false` refutes it by a kernel-checked
+  witness (finding F-C03-1; F-C03-2..5 are further classes, see props/C03.known and the class
+  predicates `classOverwrite`, `styleOverwrite`, `toggleRenamed`, `styleRenamed`, `dupItem` in
+  `Model/View.lean`).  These shapes are covered by the correspondence run only.
+* Stage 4 (`keyed`) is not in the Lean `View` type (modelled over an abstract child list in
+  `Model/Keyed.lean`, C11); correspondence only.
+-/
 namespace Leptos.View
 open Leptos.Dom
 
-/-- placeholder while the proofs are being written -/
-theorem C03_stub : True := trivial
+/-! ## the proved fragment (decidable) -/
+
+mutual
+/-- every element of the view has only static string attributes, each key once -/
+def View.inFragment : View → Bool
+  | .elem _ as c => decide (StaticAttrs as) && View.inFragment c
+  | .tuple vs => View.inFragmentList vs
+  | .osome v => View.inFragment v
+  | .either _ _ v => View.inFragment v
+  | .vec vs => View.inFragmentList vs
+  | .any _ v => View.inFragment v
+  | _ => true
+def View.inFragmentList : List View → Bool
+  | [] => true
+  | v :: vs => View.inFragment v && View.inFragmentList vs
+end
+
+mutual
+theorem inFragment_allEl : ∀ (v : View), v.inFragment = true → AllEl StaticAttrs v
+  | .text _, _ => by simp [AllEl]
+  | .unit, _ => by simp [AllEl]
+  | .onone, _ => by simp [AllEl]
+  | .elem _ as c, h => by
+    simp [View.inFragment] at h; simp only [AllEl]; exact ⟨h.1, inFragment_allEl c h.2⟩
+  | .tuple vs, h => by
+    simp only [View.inFragment] at h; simp only [AllEl]; exact inFragmentList_allEl vs h
+  | .osome v, h => by
+    simp only [View.inFragment] at h; simp only [AllEl]; exact inFragment_allEl v h
+  | .either _ _ v, h => by
+    simp only [View.inFragment] at h; simp only [AllEl]; exact inFragment_allEl v h
+  | .vec vs, h => by
+    simp only [View.inFragment] at h; simp only [AllEl]; exact inFragmentList_allEl vs h
+  | .any _ v, h => by
+    simp only [View.inFragment] at h; simp only [AllEl]; exact inFragment_allEl v h
+theorem inFragmentList_allEl : ∀ (vs : List View), View.inFragmentList vs = true →
+    AllElList StaticAttrs vs
+  | [], _ => by simp [AllElList]
+  | v :: vs, h => by
+    simp [View.inFragmentList] at h; simp only [AllElList]
+    exact ⟨inFragment_allEl v h.1, inFragmentList_allEl vs h.2⟩
+end
+
+def AttrTy.isStatic : AttrTy → Bool
+  | .str _ => true
+  | _ => false
+
+mutual
+/-- **stage 1** as a predicate on the view *type*: text / unit / elements with static string
+attributes / tuples / `Option` / `Either` / `Vec` (excluded: `AnyView`, whose content has no static
+type, and every other attribute kind) -/
+def Ty.inStage1 : Ty → Bool
+  | .text => true
+  | .unit => true
+  | .elem _ as c => as.all AttrTy.isStatic && Ty.inStage1 c
+  | .tuple ts => Ty.inStage1List ts
+  | .opt t => Ty.inStage1 t
+  | .either ts => Ty.inStage1List ts
+  | .vec t => Ty.inStage1 t
+  | .any => false
+def Ty.inStage1List : List Ty → Bool
+  | [] => true
+  | t :: ts => Ty.inStage1 t && Ty.inStage1List ts
+end
+
+theorem static_of_types : ∀ (as : List AttrVal) (ats : List AttrTy),
+    as.map AttrVal.ty = ats → ats.all AttrTy.isStatic = true →
+    allStr as = true ∧ strNames as = namedKeys ats
+  | [], ats, h, _ => by subst h; simp [allStr, strNames, namedKeys]
+  | a :: as, ats, h, hs => by
+    cases ats with
+    | nil => simp at h
+    | cons t ts =>
+      simp at h hs
+      obtain ⟨h1, h2⟩ := h
+      have ih := static_of_types as ts h2 (by simpa using hs.2)
+      cases a <;> simp [AttrVal.ty] at h1 <;> subst h1 <;> simp [AttrTy.isStatic] at hs
+      simp [allStr, strNames, namedKeys, ih.1, ih.2]
+
+theorem inStage1List_get : ∀ (ts : List Ty) (i : Nat) (t : Ty), Ty.inStage1List ts = true →
+    ts[i]? = some t → t.inStage1 = true
+  | [], i, t, _, h => by simp at h
+  | t0 :: ts, 0, t, hw, h => by
+    simp at h; subst h; simp [Ty.inStage1List] at hw; exact hw.1
+  | t0 :: ts, i + 1, t, hw, h => by
+    simp at h; simp [Ty.inStage1List] at hw; exact inStage1List_get ts i t hw.2 h
+
+mutual
+/-- a value of a stage-1 type lies in the proved fragment -/
+theorem inStage1_inFragment : ∀ (v : View) (ty : Ty), ty.wf = true → ty.inStage1 = true →
+    hasTy v ty = true → v.inFragment = true
+  | .text _, _, _, _, _ => by simp [View.inFragment]
+  | .unit, _, _, _, _ => by simp [View.inFragment]
+  | .onone, _, _, _, _ => by simp [View.inFragment]
+  | .elem tag as c, ty, hw, hs, ht => by
+    cases ty <;> simp [hasTy] at ht
+    simp [Ty.wf] at hw; simp [Ty.inStage1] at hs
+    obtain ⟨h1, h2⟩ := static_of_types as _ ht.1.2 (by simpa using hs.1)
+    simp only [View.inFragment, Bool.and_eq_true, decide_eq_true_eq]
+    exact ⟨⟨h1, by rw [h2]; exact hw.1.1⟩, inStage1_inFragment c _ hw.1.2 hs.2 ht.2⟩
+  | .tuple vs, ty, hw, hs, ht => by
+    cases ty <;> simp [hasTy] at ht
+    simp [Ty.wf] at hw; simp only [Ty.inStage1] at hs
+    simp only [View.inFragment]
+    exact inStage1List_inFragment vs _ hw.2 hs ht
+  | .osome v, ty, hw, hs, ht => by
+    cases ty <;> simp [hasTy] at ht
+    simp only [View.inFragment]
+    exact inStage1_inFragment v _ (by simpa [Ty.wf] using hw) (by simpa [Ty.inStage1] using hs) ht
+  | .either n i v, ty, hw, hs, ht => by
+    cases ty <;> simp [hasTy] at ht
+    rename_i ts
+    simp [Ty.wf] at hw; simp only [Ty.inStage1] at hs
+    simp only [View.inFragment]
+    cases hi : ts[i]? with
+    | none => simp [hi] at ht
+    | some t =>
+      simp [hi] at ht
+      exact inStage1_inFragment v t (wfList_get ts i t hw.2 hi) (inStage1List_get ts i t hs hi) ht.2
+  | .vec vs, ty, hw, hs, ht => by
+    cases ty <;> simp [hasTy] at ht
+    simp only [View.inFragment]
+    exact inStage1All_inFragment vs _ (by simpa [Ty.wf] using hw) (by simpa [Ty.inStage1] using hs) ht
+  | .any _ _, ty, _, hs, ht => by
+    cases ty <;> simp [hasTy] at ht
+    simp [Ty.inStage1] at hs
+theorem inStage1List_inFragment : ∀ (vs : List View) (ts : List Ty), Ty.wfList ts = true →
+    Ty.inStage1List ts = true → hasTyList vs ts = true → View.inFragmentList vs = true
+  | [], _, _, _, _ => by simp [View.inFragmentList]
+  | v :: vs, ts, hw, hs, ht => by
+    cases ts with
+    | nil => simp [hasTyList] at ht
+    | cons t ts =>
+      simp [hasTyList] at ht; simp [Ty.wfList] at hw; simp [Ty.inStage1List] at hs
+      simp only [View.inFragmentList, Bool.and_eq_true]
+      exact ⟨inStage1_inFragment v t hw.1 hs.1 ht.1, inStage1List_inFragment vs ts hw.2 hs.2 ht.2⟩
+theorem inStage1All_inFragment : ∀ (vs : List View) (t : Ty), t.wf = true →
+    t.inStage1 = true → hasTyAll vs t = true → View.inFragmentList vs = true
+  | [], _, _, _, _ => by simp [View.inFragmentList]
+  | v :: vs, t, hw, hs, ht => by
+    simp [hasTyAll] at ht
+    simp only [View.inFragmentList, Bool.and_eq_true]
+    exact ⟨inStage1_inFragment v t hw hs ht.1, inStage1All_inFragment vs t hw hs ht.2⟩
+end
+
+/-! ## the theorems -/
+
+/-- **C03_build_mount.**  Building `v` and mounting it before the first `post` sibling of a parent
+whose children are `pre ++ post` gives `StateOk`, leaves every older node but the parent alone,
+and the parent then serialises to `pre ++ render v ++ post`. -/
+theorem C03_build_mount (v : View) (d : Dom) (p : Id) (pre post : List Id) (rp : NodeRec)
+    (n0 : Nat) (preT postT : List Tree)
+    (hv : v.inFragment = true)
+    (hp : d.get? p = some rp) (hpe : rp.kind.isElem = true) (hk : rp.kids = pre ++ post)
+    (hplt : p < d.next) (hsl : ∀ x, x ∈ pre ++ post → x < d.next)
+    (hanchor : Anchor d p post.head? pre post)
+    (hs : SiblingsOk d [] p pre post n0 preT postT) :
+    StateOk (mount (build v d).2 (build v d).1 p post.head?) v (build v d).2 p pre post ∧
+    SiblingsOk (mount (build v d).2 (build v d).1 p post.head?) (owned (build v d).2) p pre post
+      n0 preT postT ∧
+    (∀ m, max n0 v.depth ≤ m →
+      serListN m (mount (build v d).2 (build v d).1 p post.head?)
+        ((mount (build v d).2 (build v d).1 p post.head?).kidsOf p) =
+      some (preT ++ render v ++ postT)) := by
+  obtain ⟨hok, hle, hfr, hge⟩ := build_mount_spec v d p pre post rp
+    (AllEl.mono AttrsFresh_static v (inFragment_allEl v hv)) hp hpe hk hplt hsl hanchor
+  have hs' := hs.step hle (fun x hx _ hxp => hfr x hx hxp) (fun x hx => Or.inr (hge x hx))
+  exact ⟨hok, hs', hok.ser hs'⟩
+
+/-- **C03_rebuild_eq_fresh** (stages 1 + 3: every structural combinator incl. `AnyView`, static
+string attributes).  For two values `a`, `b` of one view type, rebuilding a mounted state of `a`
+with `b` keeps `StateOk` (now for `b`), and the parent serialises to `pre ++ render b ++ post` —
+by `C03_build_mount` exactly what building and mounting `b` from scratch between the same siblings
+gives — for every `pre`, `post`. -/
+theorem C03_rebuild_eq_fresh (a b : View) (ty : Ty) (st : State) (d : Dom) (p : Id)
+    (pre post : List Id) (n0 : Nat) (preT postT : List Tree)
+    (hta : HasTy a ty) (htb : HasTy b ty)
+    (ha : a.inFragment = true) (hb : b.inFragment = true)
+    (hok : StateOk d a st p pre post) (hs : SiblingsOk d (owned st) p pre post n0 preT postT) :
+    StateOk (rebuild false b st d).1 b (rebuild false b st d).2 p pre post ∧
+    SiblingsOk (rebuild false b st d).1 (owned (rebuild false b st d).2) p pre post n0 preT postT ∧
+    (∀ m, max n0 b.depth ≤ m →
+      serListN m (rebuild false b st d).1 ((rebuild false b st d).1.kidsOf p) =
+      some (preT ++ render b ++ postT)) := by
+  obtain ⟨h1, h2⟩ := rebuild_spec StaticAttrs AttrsFresh_static
+    (fun as bs x y z => AttrsRebuild_static as bs x y z) b a ty st false d p pre post
+    hta.1 hta.2 htb.2 (inFragment_allEl a ha) (inFragment_allEl b hb) hok.rep hok.inv
+  have hok' : StateOk _ b _ p pre post := ⟨h1, h2.inv⟩
+  have hs' := hs.step h2.next_le h2.frame h2.own
+  exact ⟨hok', hs', hok'.ser hs'⟩
+
+/-- the same, with the fragment given as a decidable predicate on the type (stage 1) -/
+theorem C03_rebuild_eq_fresh_stage1 (a b : View) (ty : Ty) (st : State) (d : Dom) (p : Id)
+    (pre post : List Id) (n0 : Nat) (preT postT : List Tree)
+    (hta : HasTy a ty) (htb : HasTy b ty) (hstage : ty.inStage1 = true)
+    (hok : StateOk d a st p pre post) (hs : SiblingsOk d (owned st) p pre post n0 preT postT) :
+    ∀ m, max n0 b.depth ≤ m →
+      serListN m (rebuild false b st d).1 ((rebuild false b st d).1.kidsOf p) =
+      some (preT ++ render b ++ postT) :=
+  (C03_rebuild_eq_fresh a b ty st d p pre post n0 preT postT hta htb
+    (inStage1_inFragment a ty hta.1 hstage hta.2) (inStage1_inFragment b ty htb.1 hstage htb.2)
+    hok hs).2.2
+
+/-- **End to end**: from one initial DOM, `build a; mount; rebuild b` and `build b; mount` leave the
+parent with the same serialisation. -/
+theorem C03_update_eq_fresh (a b : View) (ty : Ty) (d : Dom) (p : Id) (pre post : List Id)
+    (rp : NodeRec) (n0 : Nat) (preT postT : List Tree)
+    (hta : HasTy a ty) (htb : HasTy b ty)
+    (ha : a.inFragment = true) (hb : b.inFragment = true)
+    (hp : d.get? p = some rp) (hpe : rp.kind.isElem = true) (hk : rp.kids = pre ++ post)
+    (hplt : p < d.next) (hsl : ∀ x, x ∈ pre ++ post → x < d.next)
+    (hanchor : Anchor d p post.head? pre post)
+    (hs : SiblingsOk d [] p pre post n0 preT postT) (m : Nat) (hm : max n0 b.depth ≤ m) :
+    let d1 := mount (build a d).2 (build a d).1 p post.head?
+    let d2 := (rebuild false b (build a d).2 d1).1
+    let e1 := mount (build b d).2 (build b d).1 p post.head?
+    serListN m d2 (d2.kidsOf p) = serListN m e1 (e1.kidsOf p) := by
+  intro d1 d2 e1
+  obtain ⟨hok1, hs1, _⟩ := C03_build_mount a d p pre post rp n0 preT postT ha hp hpe hk hplt hsl
+    hanchor hs
+  obtain ⟨_, _, h2⟩ := C03_rebuild_eq_fresh a b ty _ d1 p pre post n0 preT postT hta htb ha hb
+    hok1 hs1
+  obtain ⟨_, _, h3⟩ := C03_build_mount b d p pre post rp n0 preT postT hb hp hpe hk hplt hsl
+    hanchor hs
+  rw [h2 m hm, h3 m hm]
+
+/-- a sequence of rebuilds -/
+def rebuildAll : List View → State → Dom → Dom × State
+  | [], st, d => (d, st)
+  | b :: bs, st, d => rebuildAll bs (rebuild false b st d).2 (rebuild false b st d).1
+
+def lastView (a : View) : List View → View
+  | [] => a
+  | b :: bs => lastView b bs
+
+def allInFragment (ty : Ty) : List View → Prop
+  | [] => True
+  | b :: bs => HasTy b ty ∧ b.inFragment = true ∧ allInFragment ty bs
+
+/-- **C03_rebuild_seq.**  `StateOk` is an invariant: after any list of rebuilds with values of the
+type, the parent serialises to the fresh render of the last value. -/
+theorem C03_rebuild_seq (ty : Ty) (p : Id) (pre post : List Id) (n0 : Nat) (preT postT : List Tree) :
+    ∀ (bs : List View) (a : View) (st : State) (d : Dom),
+    HasTy a ty → a.inFragment = true → allInFragment ty bs →
+    StateOk d a st p pre post → SiblingsOk d (owned st) p pre post n0 preT postT →
+    StateOk (rebuildAll bs st d).1 (lastView a bs) (rebuildAll bs st d).2 p pre post ∧
+    (∀ m, max n0 (lastView a bs).depth ≤ m →
+      serListN m (rebuildAll bs st d).1 ((rebuildAll bs st d).1.kidsOf p) =
+      some (preT ++ render (lastView a bs) ++ postT))
+  | [], a, st, d, _, _, _, hok, hs => ⟨hok, hok.ser hs⟩
+  | b :: bs, a, st, d, hta, ha, hbs, hok, hs => by
+    obtain ⟨htb, hb, hrest⟩ := hbs
+    obtain ⟨hok', hs', _⟩ := C03_rebuild_eq_fresh a b ty st d p pre post n0 preT postT hta htb ha hb
+      hok hs
+    exact C03_rebuild_seq ty p pre post n0 preT postT bs b _ _ htb hb hrest hok' hs'
+
+/-- **C03_unmount_exact.**  `unmount` detaches exactly the root nodes of the state: the parent's
+children are `pre ++ post` again (serialising as before), and no other node changes. -/
+theorem C03_unmount_exact (v : View) (st : State) (d : Dom) (p : Id) (pre post : List Id)
+    (n0 : Nat) (preT postT : List Tree)
+    (hok : StateOk d v st p pre post) (hs : SiblingsOk d (owned st) p pre post n0 preT postT) :
+    (unmount st d).kidsOf p = pre ++ post ∧
+    (∀ x, x ≠ p → x ∉ st.roots → (unmount st d).get? x = d.get? x) ∧
+    (∀ m, n0 ≤ m → serListN m (unmount st d) ((unmount st d).kidsOf p) = some (preT ++ postT)) := by
+  obtain ⟨⟨rp', hp', hk'⟩, hoth, hnx⟩ := unmount_spec v st d p pre post hok
+  have hkids : (unmount st d).kidsOf p = pre ++ post := by simp [Dom.kidsOf, hp', hk']
+  refine ⟨hkids, hoth, ?_⟩
+  intro m hm
+  have hs' : SiblingsOk (unmount st d) (owned st) p pre post n0 preT postT :=
+    hs.step (by rw [hnx]; exact Nat.le_refl _)
+      (fun x _ hxo hxp => hoth x hxp (fun hr => hxo (hok.inv.sub x hr))) (fun x hx => Or.inl hx)
+  rw [hkids]
+  exact serListN_append _ _ _ _ _ _ (serListN_mono_le n0 m _ pre preT hs'.hpre hm)
+    (serListN_mono_le n0 m _ post postT hs'.hpost hm)
+
+/-- **C03_any_type_change.**  An `AnyView` rebuilt with a value of another type is replaced in
+position: the new state consists of fresh nodes only (nothing of the old view is retained), sits
+between the same siblings, and the parent serialises to `pre ++ render vb ++ post`. -/
+theorem C03_any_type_change (tya tyb : Ty) (va vb : View) (old : State) (d : Dom) (p : Id)
+    (pre post : List Id) (n0 : Nat) (preT postT : List Tree)
+    (hne : Ty.beq tyb tya = false)
+    (hta : HasTy (.any tya va) .any) (hb : vb.inFragment = true)
+    (hok : StateOk d (.any tya va) (.any tya old) p pre post)
+    (hs : SiblingsOk d (owned (.any tya old)) p pre post n0 preT postT) :
+    StateOk (rebuild false (.any tyb vb) (.any tya old) d).1 (.any tyb vb)
+      (rebuild false (.any tyb vb) (.any tya old) d).2 p pre post ∧
+    (∀ x, x ∈ owned (rebuild false (.any tyb vb) (.any tya old) d).2 → d.next ≤ x) ∧
+    (∀ m, max n0 vb.depth ≤ m →
+      serListN m (rebuild false (.any tyb vb) (.any tya old) d).1
+        ((rebuild false (.any tyb vb) (.any tya old) d).1.kidsOf p) =
+      some (preT ++ render vb ++ postT)) := by
+  have hrep := hok.rep
+  simp only [Rep] at hrep
+  have hty : tya.wf = true ∧ hasTy va tya = true := by simpa [HasTy, hasTy] using hta.2
+  have hroots := roots_ne_nil va tya old (some p) hty.1 hty.2 hrep.2
+  obtain ⟨h1, h2⟩ := replace_spec va vb old d p pre post hrep.2
+    (by simpa [State.roots, owned] using hok.inv) hroots
+    (AllEl.mono AttrsFresh_static vb (inFragment_allEl vb hb))
+  have hB := build_spec vb d (AllEl.mono AttrsFresh_static vb (inFragment_allEl vb hb))
+  rw [rebuild_any]
+  simp only [hne, Bool.false_eq_true, if_false]
+  have hok' : StateOk (replaceState old (build vb d).2 (build vb d).1) (.any tyb vb)
+      (.any tyb (build vb d).2) p pre post :=
+    ⟨by simp only [Rep]; exact ⟨trivial, h1⟩, by simpa [State.roots, owned] using h2.inv⟩
+  have hs' : SiblingsOk (replaceState old (build vb d).2 (build vb d).1)
+      (owned (State.any tyb (build vb d).2)) p pre post n0 preT postT :=
+    hs.step h2.next_le (by simpa [owned] using h2.frame) (by simpa [owned] using h2.own)
+  refine ⟨hok', ?_, ?_⟩
+  · intro x hx; exact (hB.range x (by simpa [owned] using hx)).1
+  · simpa [View.depth, render] using hok'.ser hs'
+
+/-! ## the full statement, and its refutation -/
+
+/-- executable instance of the property in the canonical context: a root element without
+siblings; `build a; mount; rebuild b` against `build b; mount`, compared in the oracle's normal
+form (attributes as a map, class as a token set, style as a declaration map) -/
+def updateEqFresh (a b : View) : Bool :=
+  let d0 := (({} : Dom).createElement "main").1
+  let r1 := build a d0
+  let d1 := mount r1.2 r1.1 0 none
+  let r2 := rebuild false b r1.2 d1
+  let e1 := build b d0
+  let e2 := mount e1.2 e1.1 0 none
+  match serializeKids r2.1 0, serializeKids e2 0 with
+  | some x, some y => Tree.beqList (Tree.normList x) (Tree.normList y)
+  | _, _ => false
+
+/-- **The full statement of C03 over every attribute shape** (OPEN as a theorem about the staged
+fragments; as stated over *all* shapes it is false of the code, see below).  The proved part is
+`C03_rebuild_eq_fresh` under the decidable hypothesis `inFragment`. -/
+def C03_rebuild_eq_fresh_stmt : Prop :=
+  ∀ (a b : View) (ty : Ty), HasTy a ty → HasTy b ty → updateEqFresh a b = true
+
+/-- witness of F-C03-1 (class-overwrite): `<div class="a" class=Some("b")>` rebuilt with
+`<div class="a" class=None>`: `Option::None` resets by removing the whole `class` attribute,
+`Class<String>` sees an unchanged value and does not write it back; a fresh build has `class="a"` -/
+def witnessA : View := .elem "div" [.cls "a", .ocls (some "b")] .unit
+def witnessB : View := .elem "div" [.cls "a", .ocls none] .unit
+def witnessTy : Ty := .elem "div" [.cls, .ocls] .unit
+
+theorem C03_class_overwrite_witness :
+    HasTy witnessA witnessTy ∧ HasTy witnessB witnessTy ∧ updateEqFresh witnessA witnessB = false ∧
+    View.anyElem classOverwrite witnessB = true := by decide
+
+theorem C03_rebuild_eq_fresh_stmt_false : ¬ C03_rebuild_eq_fresh_stmt := by
+  intro h
+  have := h witnessA witnessB witnessTy (by decide) (by decide)
+  exact absurd this (by decide)
+
+/-! ## non-vacuity -/
+
+/-- a stage-1 type with every structural combinator -/
+def exTy : Ty :=
+  .tuple [.text, .elem "div" [.str "id"] (.tuple [.opt .text, .either [.text, .unit]]), .vec .text]
+def exA : View :=
+  .tuple [.text "a", .elem "div" [.str "id" "x"] (.tuple [.osome (.text "o"), .either 2 0 (.text "l")]),
+    .vec [.text "1", .text "2"]]
+def exB : View :=
+  .tuple [.text "b", .elem "div" [.str "id" "y"] (.tuple [.onone, .either 2 1 .unit]),
+    .vec [.text "1", .text "2", .text "3"]]
+
+example : HasTy exA exTy ∧ HasTy exB exTy ∧ exTy.inStage1 = true := by decide
+example : exA.inFragment = true ∧ exB.inFragment = true := by decide
+example : updateEqFresh exA exB = true ∧ updateEqFresh exB exA = true := by decide
+/-- `AnyView` values are in the proved fragment too (type change and same type) -/
+example : (View.any .text (.text "a")).inFragment = true ∧
+    updateEqFresh (.any .text (.text "a")) (.any (.vec .text) (.vec [.text "x"])) = true := by decide
+
+/-- the hypotheses of `C03_build_mount` are satisfiable: a root `<main>` with a text sibling before
+and a comment after -/
+def exDom : Dom :=
+  let (d, root) := ({} : Dom).createElement "main"
+  let (d, t) := d.createTextNode "x"
+  let d := d.insertNode root t none
+  let (d, c) := d.createComment "m"
+  d.insertNode root c none
+
+example : exDom.kidsOf 0 = [1, 2] ∧ exDom.next = 3 ∧ exDom.isElement 0 = true ∧
+    exDom.getParent 2 = some 0 ∧
+    serListN 1 exDom [1] = some [Tree.text "x"] ∧ serListN 1 exDom [2] = some [Tree.comment "m"] ∧
+    subIds 1 exDom 1 = [1] ∧ subIds 1 exDom 2 = [2] := by decide
+
+/-- and the conclusion computed on that DOM: build + mount, rebuild, unmount -/
+example :
+    let r := build exA exDom
+    let d1 := mount r.2 r.1 0 (some 2)
+    let r2 := rebuild false exB r.2 d1
+    serializeKids d1 0 = some ([Tree.text "x"] ++ render exA ++ [Tree.comment "m"]) ∧
+    serializeKids r2.1 0 = some ([Tree.text "x"] ++ render exB ++ [Tree.comment "m"]) ∧
+    (unmount r2.2 r2.1).kidsOf 0 = [1, 2] := by decide
 
 end Leptos.View
